@@ -48,6 +48,9 @@ type Case struct {
 	NewIDs   []string          `json:"newIds"`   // ids the source reports now
 	StaleMin int               `json:"staleMin"` // staleness threshold in minutes (gc)
 	ExtraDBs []int             `json:"extraDbs"` // databases that merely hold business keys
+	// Other: a second source (another shard of the same link, replication ids S / T) keeps its resume position under the same
+	// checkpoint key: the operation is carried out for the first source only, the second one must find its position afterwards
+	Other []Entry `json:"other,omitempty"`
 }
 
 func rid(l string) string {
@@ -105,6 +108,21 @@ func genCase(t *rapid.T) Case {
 			c.Hash[e.RunID] = c.OldName
 		}
 	}
+	if rapid.IntRange(0, 2).Draw(t, "otherSource") == 0 {
+		for i, k := 0, rapid.IntRange(1, 2).Draw(t, "nother"); i < k; i++ {
+			e := Entry{DB: rapid.SampledFrom([]int{0, 1, 2, 3, 5}).Draw(t, "odb"), Name: c.OldName, RunID: "S", Offset: rapid.Int64Range(1, 100000).Draw(t, "ooffset") + int64(i)*100000}
+			if used[fmt.Sprintf("%d/%s", e.DB, e.RunID)] {
+				continue
+			}
+			used[fmt.Sprintf("%d/%s", e.DB, e.RunID)] = true
+			e.AgeMin = rapid.SampledFrom([]int{-1, 0, 1, c.StaleMin - 2, c.StaleMin + 2, c.StaleMin * 3}).Draw(t, "oage")
+			if e.AgeMin < -1 {
+				e.AgeMin = 0
+			}
+			c.Other = append(c.Other, e)
+		}
+		c.Hash["S"] = c.OldName
+	}
 	if rapid.Bool().Draw(t, "extra") {
 		c.ExtraDBs = rapid.SliceOfNDistinct(rapid.IntRange(0, 15), 1, 3, rapid.ID[int]).Draw(t, "extraDbs")
 	}
@@ -118,7 +136,7 @@ func seed(srv *fake.Server, c Case, now time.Time) error {
 		return err
 	}
 	defer cli.Close()
-	for _, e := range c.Entries {
+	for _, e := range append(append([]Entry(nil), c.Entries...), c.Other...) {
 		if _, err := cli.Do("select", e.DB); err != nil {
 			return err
 		}
@@ -165,6 +183,11 @@ func cleanStart(ks *fake.Keyspace, name string, idl []string) (pos, error) {
 	s2.Lock()
 	s2.KS = ks.Clone()
 	s2.Unlock()
+	return cleanStartOn(s2, name, idl)
+}
+
+// cleanStartOn performs the start-up maintenance and the start point lookup on a live double (its state is changed as a start changes it).
+func cleanStartOn(s2 *fake.Server, name string, idl []string) (pos, error) {
 	cli, err := client.NewRedis(gen.RedisCfg(s2.Addr()))
 	if err != nil {
 		return pos{}, err
@@ -237,6 +260,17 @@ func run(c Case) (fs []failure, inconc string, facts map[string]bool, evals int)
 	src.InfoHook = func(sec string) []byte {
 		return []byte(fmt.Sprintf("# Replication\r\nrole:master\r\nmaster_replid:%s\r\nmaster_replid2:%s\r\nmaster_repl_offset:1\r\nsecond_repl_offset:-1\r\n", rid(c.NewIDs[0]), rid(c.NewIDs[1])))
 	}
+	otherIDs := []string{"S", "T"}
+	sources := []*fake.Server{src}
+	if len(c.Other) > 0 {
+		src2 := fake.NewServer()
+		defer src2.Close()
+		src2.RunID = rid("S")
+		src2.InfoHook = func(sec string) []byte {
+			return []byte(fmt.Sprintf("# Replication\r\nrole:master\r\nmaster_replid:%s\r\nmaster_replid2:%s\r\nmaster_repl_offset:1\r\nsecond_repl_offset:-1\r\n", rid("S"), rid("T")))
+		}
+		sources = append(sources, src2)
+	}
 	var initKS *fake.Keyspace
 	build := func() (*fake.Server, error) {
 		s := fake.NewServer()
@@ -260,6 +294,9 @@ func run(c Case) (fs []failure, inconc string, facts map[string]bool, evals int)
 	// the tool has been running with the old configuration: its start-up maintenance has been applied to the state
 	if cli, err := client.NewRedis(gen.RedisCfg(base.Addr())); err == nil {
 		err = checkpoint.UpdateCheckpoint(cli, c.OldName, ids(c.OldIDs))
+		if err == nil && len(c.Other) > 0 {
+			err = checkpoint.UpdateCheckpoint(cli, c.OldName, ids(otherIDs))
+		}
 		cli.Close()
 		if err != nil {
 			base.Close()
@@ -272,7 +309,16 @@ func run(c Case) (fs []failure, inconc string, facts map[string]bool, evals int)
 		base.Close()
 		return nil, "clean start on the initial state: " + err.Error(), facts, 0
 	}
-	R, _ := runOp(c, base, []*fake.Server{src}, 0)
+	var p0o pos
+	if len(c.Other) > 0 {
+		p0o, err = cleanStart(initKS, c.OldName, otherIDs)
+		if err != nil {
+			base.Close()
+			return nil, "clean start of the second source on the initial state: " + err.Error(), facts, 0
+		}
+		facts["second-source-shares-the-key"] = !p0o.None
+	}
+	R, _ := runOp(c, base, sources, 0)
 	evals++
 	// the uninterrupted operation is judged like a prefix of length R
 	finalKS := base.SnapshotKS()
@@ -282,6 +328,22 @@ func run(c Case) (fs []failure, inconc string, facts map[string]bool, evals int)
 		dbsWithCp[e.DB] = true
 	}
 	judge := func(ks *fake.Keyspace, k int) {
+		if len(c.Other) > 0 && !p0o.None {
+			// the second source starts next (with the same configured name); its ids did not change
+			p1o, err := cleanStart(ks, c.NewName, otherIDs)
+			tag := fmt.Sprintf("%s carried out for the first source, target died after request %d of %d", c.Op, k, R)
+			switch {
+			case err != nil:
+				inconc = fmt.Sprintf("clean start of the second source after prefix %d: %v", k, err)
+				return
+			case p1o.None:
+				fs = append(fs, failure{"other-source-position-lost:" + c.Op, fmt.Sprintf("%s: the second source (ids S/T, same checkpoint key) resumed at offset %d (db %d) before; afterwards its start finds no position", tag, p0o.Offset, p0o.DB)})
+			case p1o.Offset < p0o.Offset:
+				fs = append(fs, failure{"other-source-position-regressed:" + c.Op, fmt.Sprintf("%s: the second source resumed at %d (db %d) before, afterwards at %d (db %d)", tag, p0o.Offset, p0o.DB, p1o.Offset, p1o.DB)})
+			case p1o.DB != p0o.DB:
+				fs = append(fs, failure{"other-source-position-moved-to-other-db:" + c.Op, fmt.Sprintf("%s: the second source's position %d was held in db %d, afterwards its start finds %d in db %d", tag, p0o.Offset, p0o.DB, p1o.Offset, p1o.DB)})
+			}
+		}
 		p1, err := cleanStart(ks, c.NewName, c.NewIDs)
 		if err != nil {
 			inconc = fmt.Sprintf("clean start after prefix %d: %v", k, err)
@@ -306,7 +368,7 @@ func run(c Case) (fs []failure, inconc string, facts map[string]bool, evals int)
 		if err != nil {
 			return fs, "seed: " + err.Error(), facts, evals
 		}
-		runOp(c, s, []*fake.Server{src}, k)
+		runOp(c, s, sources, k)
 		evals++
 		judge(s.SnapshotKS(), k)
 		s.Close()
@@ -382,6 +444,10 @@ func TestC17Replay(t *testing.T) {
 	var c Case
 	if err := json.Unmarshal(v.Case, &c); err != nil {
 		t.Fatal(err)
+	}
+	if c.Op == "setrunid" {
+		checkSetRunID(t, c)
+		return
 	}
 	for i := 0; i < 5; i++ {
 		check(t, c) // the tool iterates databases in map order: repeat
